@@ -53,3 +53,17 @@ Proof.
   apply (files_indep c n 0 false false).
 Qed.
 
+
+(* every file of a model run: empty, or header of a prefix of the loop ranks first *)
+Lemma model_header : forall c n m k t,
+  let st := exec n (init_state (k_keys c) true m) (fst (c16_events c)) in
+  In (k, t) (m_tr st) ->
+  (unknown st (key_rank k) -> file_content t = [])
+  /\ ((~ unknown st (key_rank k)) -> exists i rows,
+        (i < length (m_lo st))%nat /\ file_content t = header (m_lo st) i :: rows).
+Proof.
+  intros c n m k t st Hin.
+  pose proof (exec_finv true m n (fst (c16_events c)) _ (init_finv (k_keys c) true m)) as F.
+  unfold finv in F. rewrite Forall_forall in F. destruct (F _ Hin) as [Ff _].
+  exact (header_first n (k_keys c) true m (fst (c16_events c)) k t Hin Ff).
+Qed.
